@@ -34,6 +34,7 @@ pub struct Complex {
     pub cells1: HashSet<(V, V)>, // undirected, smaller end first
     pub face_edges: Vec<Vec<Seg>>,
     edge_face: HashMap<(V, V), usize>,
+    decomp: HashMap<(V, V), Vec<(V, V)>>,
 }
 
 fn cross(o: V, a: V, b: V) -> i64 {
@@ -106,7 +107,7 @@ impl Complex {
             }
             face_edges.push(fe);
         }
-        let cx = Complex {
+        let mut cx = Complex {
             name: name.into(),
             faces,
             wit,
@@ -114,7 +115,20 @@ impl Complex {
             cells1,
             face_edges,
             edge_face,
+            decomp: HashMap::new(),
         };
+        let vs: Vec<V> = cx.verts.iter().cloned().collect();
+        let mut decomp = HashMap::new();
+        for &u in &vs {
+            for &v in &vs {
+                if u != v {
+                    if let Some(c) = cx.decompose_slow((u.0 as f64, u.1 as f64), (v.0 as f64, v.1 as f64)) {
+                        decomp.insert((u, v), c);
+                    }
+                }
+            }
+        }
+        cx.decomp = decomp;
         // self check: every witness lies in its own face only and is clear of all 1-cells
         for f in 0..cx.faces.len() {
             for g in 0..cx.faces.len() {
@@ -378,7 +392,15 @@ impl Complex {
     }
 
     /// decompose the segment a-b into 1-cells of the complex; None if it is not a chain of 1-cells
+    /// (table lookup: all vertex pairs are precomputed when the complex is built)
     pub fn decompose(&self, a: P, b: P) -> Option<Vec<(V, V)>> {
+        if !(a.0.fract() == 0.0 && a.1.fract() == 0.0 && b.0.fract() == 0.0 && b.1.fract() == 0.0 && a.0.abs() < 1e6 && a.1.abs() < 1e6 && b.0.abs() < 1e6 && b.1.abs() < 1e6) {
+            return None;
+        }
+        self.decomp.get(&((a.0 as i32, a.1 as i32), (b.0 as i32, b.1 as i32))).cloned()
+    }
+
+    fn decompose_slow(&self, a: P, b: P) -> Option<Vec<(V, V)>> {
         let iv = |p: P| -> Option<V> {
             if p.0.fract() == 0.0 && p.1.fract() == 0.0 && p.0.abs() < 1e6 && p.1.abs() < 1e6 {
                 let v = (p.0 as i32, p.1 as i32);
